@@ -84,6 +84,10 @@ type GenOpts struct {
 	HighCounters bool
 	// MaybeNoPrices: now and then the oracle holds no prices
 	MaybeNoPrices bool
+	// SharedAddr: now and then a denom's contract has the same address on ethereum and bsc (deterministic deployments),
+	// with decimals drawn per chain as always; and some deposits are reported with the contract address in another
+	// letter case than the token list has it (the hub matches ids exactly: such a report is observed and mints nothing)
+	SharedAddr bool
 }
 
 var ethIds = []string{
@@ -133,7 +137,11 @@ func GenConfig(t *rapid.T, o GenOpts) sim.Config {
 			id++
 		}
 		if mask&2 != 0 {
-			cfg.Tokens = append(cfg.Tokens, sim.TokenCfg{Id: id, Denom: denomNames[d], Chain: "bsc", ExtId: bscIds[d], Decimals: dec(), Commission: pick(t, "comm", o.Commissions)})
+			bid := bscIds[d]
+			if o.SharedAddr && mask == 3 && rapid.IntRange(0, 2).Draw(t, "sharedaddr") == 0 {
+				bid = ethIds[d]
+			}
+			cfg.Tokens = append(cfg.Tokens, sim.TokenCfg{Id: id, Denom: denomNames[d], Chain: "bsc", ExtId: bid, Decimals: dec(), Commission: pick(t, "comm", o.Commissions)})
 			id++
 		}
 		cfg.Tokens = append(cfg.Tokens, sim.TokenCfg{Id: id, Denom: denomNames[d], Chain: "minter", ExtId: minterIds[d], Decimals: dec(), Commission: pick(t, "comm", o.Commissions)})
@@ -341,6 +349,9 @@ func GenOps(t *rapid.T, cfg sim.Config, o GenOpts) []Op {
 			op.T = lag(t)
 			if o.Whale && rapid.IntRange(0, 7).Draw(t, "whale") == 0 {
 				op.A = genWhale(t, "amt", []int{250, 253, 254, 255})
+			}
+			if o.SharedAddr && rapid.IntRange(0, 5).Draw(t, "respelled") == 0 {
+				op.N = rapid.IntRange(1, 2).Draw(t, "spelling")
 			}
 		case "transfer":
 			op.C = chainGen.Draw(t, "c")
